@@ -23,6 +23,11 @@ Check(r) ==
          /\ r.csk = csk /\ r.ssk = ssk /\ r.cpk = cpk /\ r.spk = spk /\ r.ret_c = 0 /\ r.ret_s = 0
          /\ r.crx = SubSeq(keys, 1, 32) /\ r.ctx = SubSeq(keys, 33, 64)
          /\ r.srx = r.ctx /\ r.stx = r.crx                                      \* cross-equality
+    \* every API built on X25519 (box easy/detached in both ciphers, sealed boxes, precomputation, key exchange in either
+    \* role, crypto_scalarmult itself) fails exactly when the shared point is all-zero; opening garbage always fails
+    [] r.op = "consumers" -> LET e == IF X25519(r.sk, r.pk) = Z32 THEN -1 ELSE 0 IN
+         /\ \A j \in (1..10) \cup {12} : r.rets[j] = e
+         /\ r.rets[11] = -1
     [] r.op = "box_seed_keypair" -> LET sk == SubSeq(S2!Sha512(r.seed), 1, 32) IN r.sk = sk /\ r.pk = X25519Base(sk)
 Bad == {i \in 1..Len(Recs) : ~Check(Recs[i])}
 ASSUME PrintT(<<"ORACLE", Len(Recs), ToJson(SetToSeq(Bad))>>)
